@@ -219,9 +219,10 @@ def run(ctx):
         cat(hs)
         hdr_ok = len(parts) == 2 and slice_bounds(parts[0]) is not None and strip(slice_bounds(parts[0])[0]) == ("param", pk) \
             and slice_bounds(parts[0])[1] in (None, 0) and slice_bounds(parts[0])[2] == 6
-        dec_ok = len(parts) == 2 and call_is(parts[1], f"{SEC}.decrypt_aes_cbc") and strip(parts[1][2][0]) == ("attr", ("param", dec.params[0]), "_local_key") \
-            and slice_bounds(strip(parts[1][2][1])) is not None and strip(slice_bounds(strip(parts[1][2][1]))[0]) == ("param", pk) \
-            and slice_bounds(strip(parts[1][2][1]))[1:] == (6, -32)
+        dec_ok = len(parts) == 2 and call_is(parts[1], f"{SEC}.decrypt_aes_cbc") and len(parts[1][2]) >= 2 \
+            and strip(parts[1][2][-2]) == ("attr", ("param", dec.params[0]), "_local_key") \
+            and slice_bounds(strip(parts[1][2][-1])) is not None and strip(slice_bounds(strip(parts[1][2][-1]))[0]) == ("param", pk) \
+            and slice_bounds(strip(parts[1][2][-1]))[1:] == (6, -32)
         ctx.ob("C05.c", DEC, hdr_ok and dec_ok, "tag recomputed over packet[:6] ‖ decrypt(packet[6:-32]) (header ‖ plaintext, as the encoder)",
                func=DEC, file=file, node=node2, detail={"hashed": show(hs)[:200]},
                fail=f"tag is recomputed over {show(hs)[:160]}: not header[:6] ‖ decrypted [6:-32] (encoder hashes header ‖ plaintext)")
